@@ -211,6 +211,35 @@ def check(repo: Repo, run: Run) -> None:
         run.inconclusive("C02.T3", "Evaluator.expr|lazy", why)
     else:
         run.ob("C02.T3", "Evaluator.expr|lazy", ok, why, ev.loc(fn))
+    # T10: "a non-boolean condition is an error" is decided by the `_?_:_` function, so every visited condition
+    # value has to reach it.  A loop that visits a condition, branches on its Python truthiness and then overwrites
+    # the variable with the next condition drops the first value untested (0, "", null, [] count as false).
+    dropped = None
+    for loop in [n for n in ast.walk(fn) if isinstance(n, (ast.While, ast.For))]:
+        for a in [n for n in ast.walk(loop) if isinstance(n, ast.Assign) and len(n.targets) == 1 and isinstance(n.targets[0], ast.Name)
+                  and any(isinstance(c, ast.Call) and dotted(c.func) == "self.visit" for c in ast.walk(n.value))]:
+            v = a.targets[0].id
+            truth = []
+            for n in ast.walk(loop):
+                tests = []
+                if isinstance(n, (ast.If, ast.While, ast.IfExp)):
+                    tests.append(n.test)
+                for t in tests:
+                    for x in ast.walk(t):
+                        if isinstance(x, ast.Name) and x.id == v:
+                            par = getattr(x, "_parent", None)
+                            if not (isinstance(par, ast.Call) or isinstance(par, ast.Compare) or isinstance(par, ast.Attribute)):
+                                truth.append(t)
+            passed = any(isinstance(c, ast.Call) and dotted(c.func) not in ("self.visit", "isinstance", "type", "cast")
+                         and any(isinstance(strip_cast(x), ast.Name) and strip_cast(x).id == v for x in c.args) for c in ast.walk(loop))
+            if truth and not passed:
+                dropped = (v, truth[0], loop)
+    if dropped:
+        run.ob("C02.T10", "Evaluator.expr|condition reaches _?_:_", False,
+               f"a loop visits a condition into `{dropped[0]}`, branches on its truthiness (`{ast.unparse(dropped[1])[:60]}`) and overwrites it with the next condition: "
+               "the value never reaches the `_?_:_` function, so a falsy non-boolean condition (0, '', null) of a skipped link counts as false instead of being an error", ev.loc(dropped[2]))
+    else:
+        run.ob("C02.T10", "Evaluator.expr|condition reaches _?_:_", True, "no visited condition value is dropped inside a loop before it reaches the conditional function", ev.loc(fn))
     ok, why = compiled_conditional(repo)
     run.ob("C02.T3", "Phase1Transpiler.expr|result-wrapped", ok, why, str(ev.path))
 
